@@ -383,6 +383,48 @@ func TestVerif_C11(t *testing.T) {
 			t.Fatalf("C11: type %s has no values", ct.Name)
 		}
 	}
+	// (i-b) heterogeneous collections (quick; the thorough tier's two deviations contain them): every
+	// variable-length list with 2 elements / every map with 2 keys, and inside it every single deviation
+	// of one element — so that one element differs from its neighbour in every way one choice point can
+	// make it differ (an empty value after a non-empty one, a set optional after a nil one, …)
+	if k == 1 {
+		for _, ct := range cgenAll {
+			if crashed[ct.Name] != "" {
+				continue
+			}
+			_, pts0 := cgenBuild(ct.T, nil, ct.Ctx)
+			for _, p := range pts0 {
+				var opts []int
+				var base string
+				switch {
+				case strings.HasSuffix(p.Path, "#len"):
+					opts, base = []int{2}, strings.TrimSuffix(p.Path, "#len")
+				case strings.HasSuffix(p.Path, "#keys"):
+					opts, base = []int{4, 5, 6}, strings.TrimSuffix(p.Path, "#keys")
+				default:
+					continue
+				}
+				idx++
+				if !r.Mine(idx) {
+					continue
+				}
+				for _, o := range opts {
+					d1 := cgenDev{p.Path, o}
+					_, pts1 := cgenBuild(ct.T, []cgenDev{d1}, ct.Ctx)
+					for _, q := range pts1 {
+						if !(strings.HasPrefix(q.Path, base+"[") || strings.HasPrefix(q.Path, base+"{")) {
+							continue
+						}
+						for qo := 1; qo < q.N; qo++ {
+							devs := []cgenDev{d1, {q.Path, qo}}
+							v, _ := cgenBuild(ct.T, devs, ct.Ctx)
+							c11RunRT(r, ct, devs, v, false)
+						}
+					}
+				}
+			}
+		}
+	}
 	// (ii) insertion orders
 	for _, ct := range c11MapTypes() {
 		if _, bad := crashed[ct.Name]; bad {
